@@ -60,6 +60,18 @@ MUTANTS = [
     ('restore-skipped-on-success', 'C13', R,
      "    def addSuccess(self, test):\n        self._restoreStdStreams()",
      "    def addSuccess(self, test):\n        print(self._restoreStdStreams()[0] or '', end='')"),
+    ('no-stderr-reader-thread', 'C07', R,
+     "        stderr_thread.start()\n",
+     "        stderr_thread.run()\n"),
+    ('trust-partial-report', 'C07', R,
+     "            result.num_ran = 0\n            errors.append((\"subprocess for %s\" % layer_name, None))\n            output.error_with_banner(\n                \"Incomplete report",
+     "            failures.extend(new_failures)\n            output.error_with_banner(\n                \"Incomplete report"),
+    ('child-not-reaped', 'C07', R,
+     "            child.kill()\n            child.communicate()",
+     "            child.kill()"),
+    ('eintr-not-retried', 'C07', R,
+     "                if e.errno == errno.EINTR:\n",
+     "                if e.errno == errno.EINTR:\n                    raise\n"),
     ('stop-only-on-errors', 'C16', R,
      "            failure_or_error = None\n", "            failure_or_error = None\n"),
 ]
